@@ -424,7 +424,7 @@ def finish(prop, tier, engine, agg, info, t0, coverage_extra, assumptions, rule,
     if zero:
         print("warning: probes stuck at zero: %s" % ", ".join(zero))
     print("%s %s: %d runs (%d distinct, %d distinct non-trivial), %d violation signature(s), %d known, %.1f s, %d runs/h"
-          % (prop, tier, agg.evaluations, len(agg.digests), len(agg.nontrivial), n_viol, n_known, wall,
+          % (prop, tier, agg.evaluations, len(agg.digests), cov["distinct_nontrivial"], n_viol, n_known, wall,
              cov["runs_per_hour"]))
     if harness:
         for h in harness[:5]:
